@@ -389,7 +389,7 @@ pub fn run(p: &Params, rep: &mut Report) {
         "public ids that themselves look like temporary ids ('!A0') are not generated (the format reserves them)".into(),
         "non-canonical temporary ids ('!A01', '!A+1', '!a1') are only required not to panic and not to return a dead or unrelated item".into(),
     ];
-    let total: u64 = if p.thorough { 20000 } else { 600 };
+    let total: u64 = if p.thorough { 20000 } else { 1500 };
     for k in p.cases(total) {
         rep.current_case = p.case_coord(k);
         rep.cases += 1;
